@@ -261,8 +261,16 @@ static uint64_t get_next_mclk_timestamp(void)
 static uint64_t mclk_lookup(uint32_t avtp_time)
 {
     uint64_t mclk_timestamp = get_next_mclk_timestamp();
+    uint64_t limit = mclk_timestamp + (1ULL << 32);
 
-    while (mclk_timestamp % (1ULL << 32) != avtp_time)
+    /* The AVTP timestamp denotes a point in time within a range of 2^32 ns:
+     * a media clock timestamp further away than that cannot be the one it
+     * refers to, so the search is given up there instead of running for
+     * a very long time (or forever, if the timestamp is not a multiple of
+     * 8 ns away from the media clock).
+     */
+    while (mclk_timestamp % (1ULL << 32) != avtp_time &&
+           mclk_timestamp < limit)
         mclk_timestamp = get_next_mclk_timestamp();
 
     return mclk_timestamp;
@@ -757,8 +765,10 @@ static int aaf_talker_recv_pdu(int fd_sk, int fd_timer)
     if (res < 0)
         return -1;
 
-    /* Arm the timer for the first time to start sending AAF stream. */
-    if (first_aaf_pdu) {
+    /* Arm the timer for the first time to start sending AAF stream. This
+     * needs a media clock timestamp recovered from a valid CRF pdu.
+     */
+    if (first_aaf_pdu && !STAILQ_EMPTY(&mclk_timestamps)) {
         struct itimerspec itspec = { 0 };
         uint64_t ts = mclk_dequeue_ts();
 
